@@ -795,3 +795,29 @@ pub fn flag_family() -> Vec<Seq> {
     out.dedup();
     out
 }
+
+/// Cased family: literals whose casing is not ASCII (or folds to something else) in the
+/// positions where casing decides a query: under both flags, as prefix component, inside a
+/// group, next to a wildcard.
+pub fn cased_family() -> Vec<Seq> {
+    let lits = ["é", "É", "ß", "ǅ", "k", "K", "\u{212A}", "İ", "σ", "ς", "Σ", "я", "Я", "aé", "é1", "1"];
+    let templates = [
+        "(?i)L", "(?-i)L", "L", "(?i)L/a", "(?i)L/*", "(?i)L/**", "a/(?i)L/b*", "(?-i)L/*", "{(?i)L}/a", "(?i){L,a}/*", "(?i)<L:1,2>/a",
+        "(?i)a/(?-i)L/*", "(?i)L*", "*(?i)L", "(?i)[L]", "(?i)L[a]", "**/(?i)L", "(?i)La/b", "(?i)L/(?-i)L/*", "(?i)/L/*",
+    ];
+    let mut out = vec![];
+    for l in lits {
+        for t in templates {
+            if t.contains("[L]") && l.chars().count() != 1 {
+                continue;
+            }
+            let text = t.replace('L', l);
+            if let Ok(ast) = crate::syntax::parse(&text) {
+                out.push(strip(&ast));
+            }
+        }
+    }
+    out.sort();
+    out.dedup();
+    out
+}
